@@ -50,6 +50,8 @@ type RepProc struct {
 	held         bool // the supervisor is told to leave this replica down
 	lastStartLog int64
 	startedAt    time.Time
+	// Faulted: the harness did something to this process (or provoked its removal) since it was last started (atomic)
+	Faulted int32
 }
 
 // Cluster is one volume: controller + replicas + model of acknowledged data.
@@ -165,6 +167,7 @@ func (cl *Cluster) StartRep(p *RepProc) error {
 	}
 	p.Starts++
 	p.startedAt = time.Now()
+	atomic.StoreInt32(&p.Faulted, 0)
 	cl.event("start replica %d (%s) #%d", p.Idx, p.IP, p.Starts)
 	return nil
 }
@@ -188,6 +191,7 @@ func (p *RepProc) Alive() bool {
 
 // Kill sends SIGKILL to the replica process (and optionally its sync agent).
 func (cl *Cluster) Kill(p *RepProc, agentToo bool) {
+	atomic.StoreInt32(&p.Faulted, 1)
 	if p.cmd != nil && p.cmd.Process != nil {
 		syscall.Kill(-p.cmd.Process.Pid, syscall.SIGKILL)
 	}
